@@ -222,7 +222,7 @@ ghost accP fmap[int]fmap[string]float64
 ghost accN fmap[int]fmap[string]float64
 ghost accH fmap[int]set[string]
 pred AccView(acc Accumulator) :=
-  forall x string :: {acc[x]} {x in acc} (x in acc) == (x in accH[acc]) && AccPos(acc, x) == accP[acc][x] && AccNeg(acc, x) == accN[acc][x]
+  forall x string :: {acc[x]} {x in acc} {x in accH[acc]} (x in acc) == (x in accH[acc]) && AccPos(acc, x) == accP[acc][x] && AccNeg(acc, x) == accN[acc][x]
 
 func NewAccumulator returns (acc)
   props C02 C07 C12
